@@ -5,6 +5,9 @@ HERE = os.path.dirname(os.path.abspath(__file__))
 # id -> (built?, level, technique, level text, level note, design ref)
 RACE = "Go race detector (-race build, GORACE log parsed, reports de-duplicated)"
 T = {
+ "C02": (True, "exploration", "scripted-authenticator monitor: outcome vectors injected per request, authenticator/authorizer/consumer/handler call logs judged by an OR-of-ANDs reference over the observed evaluation order",
+         "Seeded requirement structures x all 4^n outcome vectors (n<=4) x authorizer modes x rebuilds (to vary the map-order of schemes) through the full handler and through Context.Authorize; an oracle written from the statement decides admission, principal, scopes, refusal status and that nothing ran on refusal. Held on the executions produced.",
+         "trusts the scripted collaborators (authenticators, authorizer, counting consumer) and the reference evaluator; unconsulted schemes are treated as not having rejected (see DESIGN)", "DESIGN.md §4 C02"),
  "C01": (True, "exploration", "reference-model monitor: real router/handler pipeline vs segment-wise template matcher over generated descriptions x hostile request targets parsed by net/http's own parser (and real loopback TCP)",
          "Seeded exploration of API descriptions x request targets x methods through the real RoutesHandler; every response is judged by a matcher written from the statement (designated operation, decoded parameter texts by name, 405+Allow set, 404). Held on the executions produced; two template shapes the router does not support are recorded as known findings.",
          "trusts net/http's request parser and url.PathUnescape as the definition of 'what net/http can deliver' and 'percent-decoded', the reference matcher, and loads/analysis for description loading", "DESIGN.md §4 C01"),
